@@ -99,3 +99,39 @@ mod c03 {
         assert!(back == v, "decode(encode(v)) != v");
     }
 }
+
+#[cfg(kani)]
+mod c01 {
+    use pallas_codec::flat::en::Encoder;
+
+    /// reference: length-prefixed blocks of at most 255 bytes, terminated by a zero length
+    fn blk(a: &[u8]) -> Vec<u8> {
+        let mut out = Vec::new();
+        let mut i = 0;
+        while i < a.len() {
+            let n = core::cmp::min(255, a.len() - i);
+            out.push(n as u8);
+            out.extend_from_slice(&a[i..i + n]);
+            i += n;
+        }
+        out.push(0);
+        out
+    }
+
+    /// K-bounded(lengths 0, 1, 254, 255, 256, 511 with symbolic contents): Encoder::write_blk — reached through the public
+    /// byte_array — appends exactly the block form the Verus unit assumes for it (the function iterates `chunks(255)`, which
+    /// Verus cannot ingest). Bounded stand-in for that one assumed contract; never counted as proved.
+    fn check(len: usize) {
+        let data: Vec<u8> = (0..len).map(|_| kani::any::<u8>()).collect();
+        let mut e = Encoder::new();
+        let ok = e.byte_array(&data).is_ok();
+        assert!(ok);
+        assert!(e.buffer == blk(&data), "write_blk does not produce the block form");
+    }
+    #[kani::proof]
+    #[kani::unwind(8)]
+    fn c01_write_blk_small_bounded() { check(0); check(1); check(2); }
+    #[kani::proof]
+    #[kani::unwind(300)]
+    fn c01_write_blk_boundary_bounded() { check(255); check(256); }
+}
